@@ -1,6 +1,7 @@
 import warnings
 from collections import defaultdict
 from contextlib import contextmanager
+from itertools import count
 
 from .util import subvals, toposort
 from .wrap_util import wraps
@@ -94,12 +95,18 @@ def find_top_boxed_args(args):
 class TraceStack:
     def __init__(self):
         self.top = -1
+        self._ids = count()
 
     @contextmanager
     def new_trace(self):
-        self.top += 1
-        yield self.top
-        self.top -= 1
+        # Trace ids are drawn from a strictly increasing supply that is never
+        # decremented: a nested trace still gets a larger id than the traces
+        # enclosing it, while traces opened concurrently in different threads
+        # (or after an earlier trace was left by an exception) can never share
+        # an id.  `top` is the most recently issued id.
+        t = next(self._ids)
+        self.top = t
+        yield t
 
 
 trace_stack = TraceStack()
